@@ -184,6 +184,9 @@ type JenID struct {
 	ParentPointer *JenID
 	Code          *jen.Statement
 	Variable      bool
+	// Local is true when the ID is a local variable of the generated method, f.ex.
+	// the source parameter. Taking its address doesn't leak the memory of the caller.
+	Local bool
 }
 
 func (j *JenID) Pointer(t *Type, namer func(string) string) ([]jen.Code, *JenID) {
